@@ -606,7 +606,7 @@ class Gen:
              "grain sizes": [r.choice([-1, self.num(0.01, 2, 3)]) for _ in comps],
              "normalize grain sizes": [r.random() < 0.5 for _ in comps]}
         if kind.endswith("deflected"):
-            m["deflections"] = [r.choice([1.0, 0.0, self.num(0, 1, 3)]) for _ in comps]
+            m["deflections"] = [r.choice([1.0, 0.0, 0.001, 0.01, self.num(0, 1, 3)]) for _ in comps]
             mats = []
             for _ in comps:
                 a, b, c = [r.uniform(0, 2 * PI) for _ in range(3)]
@@ -759,6 +759,9 @@ class Gen:
         elif k == "plate model":
             m["plate velocity"] = self.num(0.01, 0.1, 3)
             m["density"] = self.num(3000, 3400, 0)
+            if r.random() < 0.4:
+                m["min distance slab top"] = self.num(5e3, 4e4, 0)
+                m["max distance slab top"] = self.num(6e4, 1.5e5, 0)
             if r.random() < 0.5:
                 m["thermal conductivity"] = self.num(2, 4, 2)
         elif k == "mass conserving":
@@ -827,6 +830,12 @@ class Gen:
             s = {"length": L, "thickness": [th] if r.random() < 0.6 else [th, self.num(3e4, 1.2e5, 0)]}
             if r.random() < 0.5:
                 s["angle"] = [ang]
+            elif r.random() < 0.15:
+                # a dip pair that is almost, but not exactly, constant (the implementation switches between its line and
+                # its arc construction at a difference of 1e-8 rad)
+                a2 = round(ang + r.choice([-1, 1]) * r.choice([0.01, 0.05, 0.3]), 2)
+                s["angle"] = [ang, a2]
+                ang = a2
             else:
                 a2 = min(170.0, max(5.0, ang + r.choice([-1, 1]) * self.num(5, 40, 1)))
                 s["angle"] = [ang, a2]
